@@ -211,8 +211,9 @@ theorem pump_good (fuel : Nat) (s : St) (f : Nat) (hb : Base s f) (hc : Cov s f)
             · intro g hg hgf
               rcases hc g hg hgf with h | h | h
               · left
-                rcases h with ⟨d, hd, hgd⟩ | h
-                · exact Or.inl ⟨d, by simp [hd], hgd⟩
+                rcases h with (⟨d, hd, hgd⟩ | h) | h
+                · exact Or.inl (Or.inl ⟨d, by simp [hd], hgd⟩)
+                · exact Or.inl (Or.inr h)
                 · exact Or.inr h
               · rcases h with ⟨it, hit, hlive, hgi⟩ | ⟨it, hit, _, hgi⟩
                 · right; left; left
@@ -221,7 +222,7 @@ theorem pump_good (fuel : Nat) (s : St) (f : Nat) (hb : Base s f) (hc : Cov s f)
                   simp only at *
                   omega
                 · rw [hheld] at hit; cases hit
-                  left; left
+                  left; left; left
                   exact ⟨(k, b), by simp, hgi⟩
               · right; right
                 refine ⟨h.1, h.2.1, ?_⟩
@@ -229,7 +230,30 @@ theorem pump_good (fuel : Nat) (s : St) (f : Nat) (hb : Base s f) (hc : Cov s f)
                 simp only at *
                 omega
           · rw [if_neg hup]
-            exact ⟨hb, hc⟩
+            by_cases hmr : s.maxRetries ≠ 0
+            · -- the finite retry limit is exhausted: dropped
+              rw [if_pos hmr]
+              have hH : ∀ it, (none : Option (Nat × Batch)) = some it →
+                  (∀ g ∈ it.2, g.idx ≤ it.1) ∧ it.1 < s.fifo.nextFrom ∧ it.1 ≤ s.fifo.highest ∧
+                  (it ∈ s.fifo.items ∨ it.1 ≤ s.maxIn) ∧ (s.hwm < it.1 ∨ it.1 ≤ s.maxIn) := by
+                intro it hit; cases hit
+              apply ih
+              · exact { hb with heldI := hH }
+              · intro g hg hgf
+                rcases hc g hg hgf with h | h | h
+                · left
+                  rcases h with (h | ⟨d, hd, hgd⟩) | h
+                  · exact Or.inl (Or.inl h)
+                  · exact Or.inl (Or.inr ⟨d, by simp [hd], hgd⟩)
+                  · exact Or.inr h
+                · rcases h with h | ⟨it, hit, _, hgi⟩
+                  · exact Or.inr (Or.inl (Or.inl h))
+                  · rw [hheld] at hit; cases hit
+                    left; left; right
+                    exact ⟨(k, b), by simp, hgi⟩
+                · exact Or.inr (Or.inr h)
+            · rw [if_neg hmr]
+              exact ⟨hb, hc⟩
       | none =>
         simp only
         cases hne : s.fifo.nextEv with
